@@ -84,7 +84,8 @@ RULE = (
     "T rewrites one textually located piece of the string (harness/c06_common.py): ASCII/Unicode case flips of the whole string or of "
     "one component (scheme, userinfo, host, path, query, fragment, the hex digits of escapes); port set to None / 1..65535; a label "
     "prepended to the host (every two-letter label, i.e. the whole ISO set and its whole complement, xx-yy pairs with good and bad "
-    "halves, look-alikes); a gl / hl item (any case, several values) inserted at every position of the query; the public suffix "
+    "halves, look-alikes, every ISO code spelled with dotless i / long s (str.upper maps them to I / S: KF-C06-5) or the Kelvin sign "
+    "(str.lower maps it to k: a case variant, the label is judged after str.lower)); a gl / hl item (any case, several values) inserted at every position of the query; the public suffix "
     "swapped among bundled suffixes of 1-3 labels; and a sample of what normalize_url documents as irrelevant (scheme, userinfo, "
     "www/m/mobile/amp labels, default port, trailing slash, index page, fragment, tracking items, item order, &amp;, escape "
     "spelling, whitespace, control characters). urllib is asked whether the rewrite did what it names (else the case is dropped). "
@@ -105,7 +106,7 @@ RULE = (
     "Non-trivial = T(u) != u; distinct = distinct (u, T, options)."
 )
 EXHAUSTIVE = {
-    "quick": "all 676 two-letter labels (the 249 ISO codes and the 427 non-codes) on 4 hosts; gl/hl/GL/hL x 7 values at every "
+    "quick": "all 676 two-letter labels (the 249 ISO codes and the 427 non-codes) on 4 hosts; every ISO code with i / s / k written as dotless i / long s / Kelvin sign, alone and in both halves of xx-yy; gl/hl/GL/hL x 7 values at every "
     "position of 12 query shapes; ports None,1,80,443,8080,65535,... on 41 bases x 4 option pairs, 29 well-known ports on 6 bases, every 31st port 1..65535 "
     "(seeded offset) on one base; all ordered pairs of 14 suffixes (1-3 labels, incl. private and 'www.ro') x 6 domain shapes; 10 case components on 56 bases",
     "thorough": "as quick, plus every port 1..65535 on one base and every 7th on a second (both option bits on), the two-letter "
